@@ -38,7 +38,9 @@ RULE = (
     "Equivalent spellings: k / k_nearest as python int, numpy int64/int32/intp/uint8 (k_nearest also 0-d array), maxdist as python int / "
     "float, numpy integer / floating, 0-d array; a single query or data point as python scalars, numpy scalars, 0-d arrays, 1-element "
     "arrays; falsy but valid values (maxdist 0, all-zero extra coordinate, points on the northing axis). Grid axes increasing or decreasing, "
-    "evenly or unevenly spaced. "
+    "evenly or unevenly spaced. Extra coordinates (height, time) with NaN / +-inf at points whose easting/northing are finite, border "
+    "points of the cloud and k = n included, for fit, predict queries, median_distance and distance_mask data/queries; each such call is "
+    "twinned with the two-coordinate call and tree_.n / data_.size / region_ are checked against ALL points. "
     "KNeighbors: k in {1,2,3,n-1,n,random}, reductions mean/median/min/max (+sum/ptp), data values unique per point, queries inside, "
     "outside and on the data, direct predict and nested through grid/scatter/profile/Chain/project_grid. median_distance: k=1..n-1. "
     "distance_mask: maxdist from the quantiles of the true nearest distances (also 0, huge, exactly a realised distance), array form "
@@ -112,7 +114,13 @@ FLOORS = {
         "class:knn_fit_easting_or_northing_all_zero": 25, "class:median_extra_coordinate_all_zero": 21,
         "class:median_easting_or_northing_all_zero": 10, "class:mask_data_easting_or_northing_all_zero": 11,
         "class:grid_northing_decreasing": 125, "class:grid_easting_decreasing": 80, "class:grid_northing_unevenly_spaced": 125,
-        "class:grid_easting_unevenly_spaced": 125,
+        "class:grid_easting_unevenly_spaced": 125, "eval:KNeighbors.fit_attributes": 990,
+        "eval:extras_ignored.KNeighbors.predict": 190, "eval:extras_ignored.median_distance": 47,
+        "eval:extras_ignored.distance_mask": 34, "class:knn_fit_extra_coordinate_non_finite": 97,
+        "class:knn_fit_extra_non_finite_at_a_border_point_of_the_cloud": 85,
+        "class:knn_k=n_after_fit_with_non_finite_extras": 90, "class:knn_query_extra_coordinate_non_finite": 118,
+        "class:median_extra_coordinate_non_finite": 47, "class:mask_data_extra_coordinate_non_finite": 28,
+        "class:mask_query_extra_coordinate_non_finite": 5,
     },
     "thorough": {
         "eval:KNeighbors.predict": 25500, "eval:median_distance": 5400, "eval:distance_mask.array": 7650,
@@ -164,7 +172,13 @@ FLOORS = {
         "class:median_extra_coordinate_all_zero": 315, "class:median_easting_or_northing_all_zero": 150,
         "class:mask_data_easting_or_northing_all_zero": 165, "class:grid_northing_decreasing": 1875,
         "class:grid_easting_decreasing": 1200, "class:grid_northing_unevenly_spaced": 1875,
-        "class:grid_easting_unevenly_spaced": 1875,
+        "class:grid_easting_unevenly_spaced": 1875, "eval:KNeighbors.fit_attributes": 14850,
+        "eval:extras_ignored.KNeighbors.predict": 2850, "eval:extras_ignored.median_distance": 705,
+        "eval:extras_ignored.distance_mask": 510, "class:knn_fit_extra_coordinate_non_finite": 1455,
+        "class:knn_fit_extra_non_finite_at_a_border_point_of_the_cloud": 1275,
+        "class:knn_k=n_after_fit_with_non_finite_extras": 1350, "class:knn_query_extra_coordinate_non_finite": 1770,
+        "class:median_extra_coordinate_non_finite": 705, "class:mask_data_extra_coordinate_non_finite": 420,
+        "class:mask_query_extra_coordinate_non_finite": 75,
     },
 }
 JOBS = {"quick": 1, "thorough": 8}
@@ -365,6 +379,23 @@ def spell_point(rng, values, python_ok=True):
     return tuple(int(v) if float(v) == np.rint(float(v)) else float(v) for v in values), "python_numbers"
 
 
+def non_finite_rows(extras, size):
+    """Which points carry NaN / inf in one of the extra (ignored) coordinate arrays."""
+    bad = np.zeros(size, dtype=bool)
+    for extra in extras:
+        try:
+            arr = np.atleast_1d(np.asarray(extra, dtype="float64")).ravel()
+        except (TypeError, ValueError):
+            continue
+        if arr.size == size:
+            bad |= ~np.isfinite(arr)
+    return bad
+
+
+def on_border(x, y):
+    return (x == x.min()) | (x == x.max()) | (y == y.min()) | (y == y.max())
+
+
 def container_class(obj):
     """ndarray / Series / DataArray / scalar ... (what the caller handed over)."""
     if isinstance(obj, np.ndarray):
@@ -455,9 +486,26 @@ def install(tap, run):
             fitted.pop(est, None)
             run.count("skipped:fit_nonfinite_or_ragged")
             return
+        bad = non_finite_rows(coords[2:], px.size)
         fitted[est] = {"x": px.copy(), "y": py.copy(), "data": data, "n_coords": len(coords),
-                       "weights": a.get("weights") is not None, "ndim": np.ndim(coords[0])}
+                       "weights": a.get("weights") is not None, "ndim": np.ndim(coords[0]), "bad_extras": bool(bad.any())}
         run.count("KNeighbors.fit_observed")
+        if bad.any():
+            run.count("class:knn_fit_extra_coordinate_non_finite")
+            if (bad & on_border(px, py)).any():
+                run.count("class:knn_fit_extra_non_finite_at_a_border_point_of_the_cloud")
+        # the documented attributes describe ALL the points given, whatever the extra coordinates hold
+        run.evaluated("KNeighbors.fit_attributes")
+        want_region = (float(px.min()), float(px.max()), float(py.min()), float(py.max()))
+        try:
+            have = (int(est.tree_.n), int(np.size(est.data_)), tuple(float(v) for v in est.region_))
+        except Exception as exc:  # noqa: BLE001
+            have = repr(exc)
+        if have != (px.size, px.size, want_region):
+            run.violation("KNeighbors.fit_attributes",
+                          "after fit on %d points: (tree_.n, data_.size, region_) = %r, expected %r"
+                          % (px.size, have, (px.size, px.size, want_region)),
+                          {"coordinates": [px, py], "extras": [np.asarray(c) for c in coords[2:]], "have": repr(have)}, key="fit:attributes")
         run.count("class:knn_fit_data_container_" + container_class(a["data"]))
         run.count("class:knn_fit_coordinates_container_" + container_class(coords[0]))
         for what, obj in (("data", a["data"]), ("coordinates", coords[0])):
@@ -514,6 +562,12 @@ def install(tap, run):
             run.count("class:knn_query_container_" + container_class(coords[0]))
         if q0.size == 1:
             run.count("class:knn_single_query_point_as_" + spelling(coords[0]))
+        if snap.get("bad_extras"):
+            run.count("class:knn_predict_after_fit_with_non_finite_extras")
+            if k == n:
+                run.count("class:knn_k=n_after_fit_with_non_finite_extras")
+        if len(coords) > 2 and non_finite_rows(coords[2:], q0.size).any():
+            run.count("class:knn_query_extra_coordinate_non_finite")
         if len(coords) > 2:
             run.count("class:knn_query_extra_coordinates")
         if ev.parent is not None:
@@ -610,6 +664,8 @@ def install(tap, run):
             run.count("class:median_easting_or_northing_all_zero")
         if len(coords) > 2 and any(not np.any(np.asarray(c)) for c in coords[2:]):
             run.count("class:median_extra_coordinate_all_zero")
+        if len(coords) > 2 and non_finite_rows(coords[2:], c0.size).any():
+            run.count("class:median_extra_coordinate_non_finite")
         if container_class(coords[0]) != "ndarray":
             run.count("class:median_coordinates_container_" + container_class(coords[0]))
             run.count("class:median_coordinates_index_%s" % index_class(coords[0]))
@@ -703,6 +759,10 @@ def install(tap, run):
             run.count("class:mask_single_query_point_as_" + spelling(coords[0]))
         if not np.any(dx) or not np.any(dy):
             run.count("class:mask_data_easting_or_northing_all_zero")
+        if len(dc) > 2 and non_finite_rows(dc[2:], dx.size).any():
+            run.count("class:mask_data_extra_coordinate_non_finite")
+        if coords is not None and len(coords) > 2 and non_finite_rows(coords[2:], q0.size).any():
+            run.count("class:mask_query_extra_coordinate_non_finite")
         if form == "grid":
             for axis, vec in (("northing", north_vec), ("easting", east_vec)):
                 if vec.size > 1:
@@ -955,6 +1015,34 @@ def _frame(run, rng, columns, op=None, keep_all=False):
     return df, op
 
 
+def _poisoned_extras(rng, east, north):
+    """
+    Extra coordinates (height, time) with NaN / +-inf at some points whose easting and northing are finite, border points of
+    the cloud included. They are documented as ignored.
+    """
+    n = east.size
+    extras = [rng.normal(size=n) * 10 + 500.0]
+    if rng.random() < 0.4:
+        extras.append(rng.uniform(0, 1e3, n))
+    border = [int(np.argmin(east)), int(np.argmax(east)), int(np.argmin(north)), int(np.argmax(north))]
+    for extra in extras:
+        where = list(rng.integers(0, n, int(rng.integers(1, 4))))
+        if rng.random() < 0.7:
+            where += [border[int(j)] for j in rng.integers(0, 4, int(rng.integers(1, 5)))]
+        for j in where:
+            extra[j] = float(rng.choice([np.nan, np.nan, np.inf, -np.inf]))
+    return extras
+
+
+def _twin(run, what, with_extras, without):
+    """Metamorphic twin: the result with (easting, northing, extras...) equals the result with (easting, northing)."""
+    run.evaluated("extras_ignored." + what)
+    a, b = np.asarray(with_extras), np.asarray(without)
+    if a.shape != b.shape or not np.array_equal(a, b, equal_nan=a.dtype.kind == "f"):
+        run.violation("extras_ignored." + what, "non-finite extra coordinates changed the result of %s" % what,
+                      {"with_extras": a, "two_coordinates": b}, key="extras:" + what)
+
+
 def _extra_coordinate(rng, n):
     """A third coordinate that must be ignored; sometimes 0 everywhere (falsy but valid)."""
     return np.zeros(n) if rng.random() < 0.3 else rng.normal(size=n)
@@ -1063,6 +1151,9 @@ def _knn_case(run, verde, rng):
         # falsy but valid: every point on the northing axis (easting == 0), the old easting rides along as an extra coordinate
         extras = [east.copy()]
         east = np.zeros(n)
+    poisoned = rng.random() < 0.15
+    if poisoned:
+        extras = _poisoned_extras(rng, east, north)
     weights_in = None
     if rng.random() < 0.4:
         east_in, north_in, data_in, extra_in, weights_in, east, north, data = _pandas_fit_inputs(run, rng, east, north, data, extras)
@@ -1070,24 +1161,31 @@ def _knn_case(run, verde, rng):
     else:
         (east_in, north_in, data_in, *extra_in), layout = _present(rng, [east, north, data] + extras)
     k = _k_choice(rng, n)
+    if poisoned and rng.random() < 0.4:
+        k = n  # every point is a neighbour: the ones with non-finite extras (some on the border of the cloud) included
     reduction = REDUCTIONS[int(rng.integers(0, len(REDUCTIONS)))]
     est = verde.KNeighbors(k=spell_int(rng, k), reduction=reduction)
     weights = weights_in if weights_in is not None else (np.ones_like(np.asarray(data_in), dtype="float64") if rng.random() < 0.15 else None)
     with warnings.catch_warnings():
         warnings.simplefilter("ignore")
         est.fit((east_in, north_in, *extra_in), data_in, weights=weights)
+    twin = verde.KNeighbors(k=k, reduction=reduction).fit((east, north), data) if poisoned and extra_in else None
     for _ in range(int(rng.integers(1, 4))):
         qx, qy = _queries(rng, east, north)
         if lattice and rng.random() < 0.6:  # lattice mid-points: exact distance ties
             qx = np.round(qx / (step / 2)) * (step / 2)
             qy = np.round(qy / (step / 2)) * (step / 2)
         qextra = [rng.normal(size=qx.size)] if rng.random() < 0.2 else []
+        if rng.random() < 0.12 and qx.size > 1:
+            qextra = _poisoned_extras(rng, qx, qy)
         if rng.random() < 0.2:
             qdf, _ = _frame(run, rng, [("qx", qx), ("qy", qy)])
             query = (qdf.qx, qdf.qy)
         else:
             query, qlayout = _present(rng, [qx, qy] + qextra, allow_0d=True)
         pred = est.predict(query)
+        if twin is not None:
+            _twin(run, "KNeighbors.predict", pred, twin.predict(tuple(query[:2])))
     if rng.random() < 0.15:  # refit the same object on other data: the monitor must follow
         east2, north2 = gen.cloud(rng, max(n, 2))
         data2 = _unique_data(rng, east2.size)
@@ -1142,12 +1240,17 @@ def _median_case(run, verde, rng):
             extras = [east.copy()]
             east = np.zeros(n)
             projection = None if isinstance(projection, Warp) else projection
+        poisoned = rng.random() < 0.15
+        if poisoned:
+            extras = _poisoned_extras(rng, east, north)
         if rng.random() < 0.3:  # columns of a frame whose index labels are not the positions
-            df, _ = _frame(run, rng, [("easting", east), ("northing", north)] + [("extra", x) for x in extras], keep_all=True)
+            df, _ = _frame(run, rng, [("easting", east), ("northing", north)] + [("extra%d" % i, x) for i, x in enumerate(extras)], keep_all=True)
             coords = tuple(df[c] for c in df.columns)
         else:
             coords, layout = _present(rng, [east, north] + extras)
         out = verde.median_distance(coords, k_nearest=spell_int(rng, k, zero_d=True), projection=projection)
+        if poisoned:
+            _twin(run, "median_distance", out, verde.median_distance(tuple(coords[:2]), k_nearest=k, projection=projection))
     run.sample("median", {"coordinates": list(coords[:2]), "k_nearest": k, "projection": repr(projection), "result": out})
 
 
@@ -1171,6 +1274,7 @@ def _mask_case(run, verde, rng):
     for _ in range(3):
         n = 1 if rng.random() < 0.1 else _n_points(rng, 1, 200)
         east, north = gen.cloud(rng, n)
+        poisoned_query = poisoned_data = False
         axis_points = n > 1 and rng.random() < 0.04  # falsy but valid: all data points on the northing axis (easting == 0)
         if axis_points:
             spare, east = east.copy(), np.zeros(n)
@@ -1181,7 +1285,11 @@ def _mask_case(run, verde, rng):
                 qdf, _ = _frame(run, rng, [("qx", qx), ("qy", qy)], keep_all=True)
                 query = (qdf.qx, qdf.qy)
             else:
-                query, qlayout = _present(rng, [qx, qy] + ([_extra_coordinate(rng, qx.size)] if rng.random() < 0.2 else []),
+                qextra = [_extra_coordinate(rng, qx.size)] if rng.random() < 0.2 else []
+                if rng.random() < 0.15 and qx.size > 1:
+                    qextra = _poisoned_extras(rng, qx, qy)
+                    poisoned_query = True
+                query, qlayout = _present(rng, [qx, qy] + qextra,
                                           allow_0d=True, python_ok=False)  # python scalars have no .shape: verde refuses them as queries
         else:  # a non-square mesh (possibly irregular and descending)
             ne, nn = int(rng.integers(2, 40)), int(rng.integers(2, 30))
@@ -1213,8 +1321,14 @@ def _mask_case(run, verde, rng):
                 ddf, _ = _frame(run, rng, [("easting", east), ("northing", north)], keep_all=True)
                 data_coords = (ddf.easting, ddf.northing)
             else:
-                data_coords, _ = _present(rng, [east, north] + ([_extra_coordinate(rng, n)] if rng.random() < 0.2 else []))
+                dextra = [_extra_coordinate(rng, n)] if rng.random() < 0.2 else []
+                if rng.random() < 0.15 and n > 1:
+                    dextra = _poisoned_extras(rng, east, north)
+                    poisoned_data = True
+                data_coords, _ = _present(rng, [east, north] + dextra)
         out = verde.distance_mask(data_coords, spell_number(rng, maxdist), coordinates=query, projection=projection)
+        if poisoned_query or poisoned_data:
+            _twin(run, "distance_mask", out, verde.distance_mask(tuple(data_coords[:2]), maxdist, coordinates=tuple(query[:2]), projection=projection))
     run.sample("mask", {"data_coordinates": list(data_coords[:2]), "maxdist": maxdist, "projection": repr(projection),
                         "query_shape": list(np.shape(query[0])), "mask": out})
 
